@@ -167,25 +167,31 @@ theorem C09_witness_lib_far_ref :
      `Syntax.readObj fuel (ser v ++ rest) = some (readBack (sortDicts v), rest)`.
    False: see `C09_witness_spec_*`. -/
 
-/-- T2 on the safe fragment: names and keys over ALL bytes, literal strings without CR, no
-    integer that the following bytes turn into `n g R`. -/
+/-- T2 on the safe fragment: names, keys and strings over ALL bytes, no integer that the
+    following bytes turn into `n g R`. -/
 theorem C09_spec_roundtrip_partial (v : Obj) (rest : List Nat) (fuel : Nat)
     (hs : SafeSpec (sortDicts v) rest = true) (hf : need (sortDicts v) ≤ fuel) :
     Syntax.readObj fuel (ser v ++ rest) = some (readBack (sortDicts v), rest) :=
   spec_obj_roundtrip (sortDicts v) rest fuel hs hf
 
 example : SafeSpec (sortDicts (.dict [([75], .arr [.int 1, .real [50, 46, 53, 48, 48, 48, 48, 48],
-      .str [40, 41, 92, 10], .ref 7 0, .name [65, 32, 47, 35, 0, 195, 169, 255]]), ([65, 32, 66], .hexstr [0, 255])]))
+      .str [40, 41, 92, 13, 10], .ref 7 0, .name [65, 32, 47, 35, 0, 195, 169, 255]]), ([65, 32, 66], .hexstr [0, 255])]))
     [10, 62, 62, 10, 101, 110, 100, 111, 98, 106, 10] = true := by rfl
 
 /-- the same serializer writes objects inside object streams -/
 theorem C09_objstm_same_bytes (v : Obj) : serBuf v = ser v := rfl
 
-theorem C09_spec_string_partial (s rest : List Nat) (fuel : Nat) (hs : NoCR s = true) :
+/-- Literal strings on the independent-reader side: **every** byte string (CR is written `\r`,
+    so no raw end-of-line marker other than LF is ever inside a written string). -/
+theorem C09_spec_string_all_bytes (s rest : List Nat) (fuel : Nat) :
     Syntax.readObj (fuel + 1) (ser (.str s) ++ rest) = some (.str s, rest) :=
-  spec_obj_roundtrip (.str s) rest (fuel + 1) (by simpa [SafeSpec] using hs) (by simp [need])
+  spec_obj_roundtrip (.str s) rest (fuel + 1) (by simp [SafeSpec]) (by simp [need])
 
-example : NoCR [40, 41, 92, 10, 0, 255] = true := by decide
+example : Syntax.readObj 1 (ser (.str [40, 41, 92, 13, 10, 13, 0, 255]) ++ [32])
+    = some (.str [40, 41, 92, 13, 10, 13, 0, 255], [32]) := C09_spec_string_all_bytes _ _ 0
+
+/-- the bytes: CR LF is written `\r` LF -/
+example : ser (.str [97, 13, 10, 98]) = [40, 97, 92, 114, 10, 98, 41] := by rfl
 
 theorem C09_spec_hexstring (bs rest : List Nat) (fuel : Nat) (hb : allB (fun b => b < 256) bs = true) :
     Syntax.readObj (fuel + 1) (ser (.hexstr bs) ++ rest) = some (.str bs, rest) :=
@@ -251,13 +257,26 @@ theorem C09_witness_spec_name_solidus :
 /-- on trees without names the two serializers agree, so everything else is unchanged -/
 example : serUnescaped (.arr [.int 1, .str [40], .ref 2 0]) = ser (.arr [.int 1, .str [40], .ref 2 0]) := by rfl
 
-/-- counter-witness: a CR inside a literal string is written raw; a conforming reader delivers LF -/
+/-! ### `escape_pdf_string_bytes` before the CR repair: the regression -/
+
+/-- without a CR the old emission was read back -/
+theorem C09_spec_string_rawCR_partial (s rest : List Nat) (hs : NoCR s = true) :
+    Syntax.readLit 0 .normal (escapePdfStringRawCR s ++ 41 :: rest) = some (s, rest) :=
+  spec_readLit_escape_rawCR s rest hs
+
+example : NoCR [40, 41, 92, 10, 0, 255] = true := by decide
+
+/-- regression witness: a CR inside a literal string written raw; a conforming reader delivers LF -/
 theorem C09_witness_spec_string_cr :
-    Syntax.read (ser (.str [97, 13, 98]) ++ [32]) = some (.str [97, 10, 98], [32]) := by rfl
+    Syntax.read (serStrRawCR [97, 13, 98] ++ [32]) = some (.str [97, 10, 98], [32]) := by rfl
 
 theorem C09_witness_spec_string_cr_ne :
-    Syntax.read (ser (.str [97, 13, 98]) ++ [32]) ≠ some (readBack (sortDicts (.str [97, 13, 98])), [32]) := by
+    Syntax.read (serStrRawCR [97, 13, 98] ++ [32]) ≠ some (readBack (sortDicts (.str [97, 13, 98])), [32]) := by
   rw [C09_witness_spec_string_cr]; simp [readBack, sortDicts]
+
+/-- regression witness: a raw CR LF pair came back as a single LF (one byte lost) -/
+theorem C09_witness_spec_string_crlf :
+    Syntax.read (serStrRawCR [97, 13, 10, 98] ++ [32]) = some (.str [97, 10, 98], [32]) := by rfl
 
 /-- the array that fools the library is read correctly by the independent reader -/
 theorem C09_spec_ref_lookalike_ok :
